@@ -188,3 +188,33 @@ pub fn find_entry(
 pub fn io_budget_left() -> usize {
 	crate::error::IO_COUNTER_BEFORE_ERROR.with(|v| v.load(Ordering::SeqCst))
 }
+
+/// Loom visibility (H8): mapped memory and std atomics are invisible to loom. A shadow access to a loom
+/// atomic next to each such access makes it a scheduling point and a DPOR dependency (load ~ load,
+/// store ~ read-modify-write). `id` selects one of 64 shadow cells.
+#[cfg(feature = "loom")]
+mod touch {
+	loom::lazy_static! {
+		static ref CELLS: Vec<loom::sync::atomic::AtomicUsize> = (0..64).map(|_| loom::sync::atomic::AtomicUsize::new(0)).collect();
+	}
+	pub fn read(id: usize) {
+		CELLS[id % 64].load(loom::sync::atomic::Ordering::SeqCst);
+	}
+	pub fn write(id: usize) {
+		CELLS[id % 64].fetch_add(1, loom::sync::atomic::Ordering::SeqCst);
+	}
+}
+
+#[cfg(feature = "loom")]
+pub use touch::{read as touch_read, write as touch_write};
+
+#[cfg(not(feature = "loom"))]
+#[inline(always)]
+pub fn touch_read(_id: usize) {}
+#[cfg(not(feature = "loom"))]
+#[inline(always)]
+pub fn touch_write(_id: usize) {}
+
+pub const TOUCH_SHUTDOWN: usize = 60;
+pub const TOUCH_LAST_ENACTED: usize = 61;
+pub const TOUCH_NEXT_REINDEX: usize = 62;
